@@ -416,7 +416,10 @@ def gen_edges(rng):
 def gen_case(rng, k, big=False, quick=False):
     if big:
         # both size orderings (the binned path swaps the datasets when the secondary is the larger one)
-        return {"id": k, "kind": "big", "calls": [gen_call(rng, big=True, larger=("primary", "secondary")[k % 2], quick=quick)]}
+        call = gen_call(rng, big=True, larger=("primary", "secondary")[k % 2], quick=quick)
+        # the binned path with every kind of bin width whatever the seed: wider than, equal to and narrower than max_interval
+        call["bin_factor"] = [2, 0.5, 3, 1, 5, 2][k % 6]
+        return {"id": k, "kind": "big", "calls": [call]}
     style = rng.random()
     if style < 0.10:
         return {"id": k, "kind": "stale", "calls": gen_stale(rng)}
